@@ -200,6 +200,9 @@ def check_vector(vec, seed, full):
         sh.formula(f'=SUMPRODUCT({ref(rr, 1, h, w)},{R})', vec['sprot'],
                    f'SUMPRODUCT(rotated,range){tag}')
         sh.formula(f'=SUMPRODUCT({R},{R})', vec['spself'], f'SUMPRODUCT(range,range){tag}')
+        # one range: the products are the cells themselves (SumProductLaw, Ones)
+        sh.formula(f'=SUMPRODUCT({R})', vec['sum'] if errfree else vec['errs'],
+                   f'SUMPRODUCT(range){tag}')
         # the transposed rectangle (a permutation of the cells)
         if h > 1 and w > 1 or si == 0:
             tv = [vals[(i % h) * w + i // h] for i in range(n)]
